@@ -16,6 +16,7 @@ RULE = ("Hypothesis: well-formed notes on 2 channels over 1-3 pitches (abutting 
         "next onset of the key (and v <= old duration if do_not_extend); note present iff fit non-empty, then duration in "
         "argmin |v-old| over fit; velocity/onset/pitch/channel unchanged; non-note events identical; no overlap. "
         "Non-trivial: >= 2 notes of one key and >= 1 note whose duration is not in the list. Distinct by case digest.")
+RULE = RULE + " Rounds e-g: gaps up to 70 and values 72/96, one 10^4..10^5-tick note, several control changes per tick, SEQUENCE_CONTROL noise, channel pools, silent notes, far tick shifts, self-concatenated inputs."
 ASSUMPTIONS = ["total duration (trailing INTERNAL marker) is not part of the statement"]
 TIERS = {"quick": dict(shards=8, examples=1500, alt_ppqn=[480], alt_shards=2),
          "thorough": dict(fuzz_runs=20000, fuzz_shards=4, size=2, shards=16, examples=25000, alt_ppqn=[480, 7, 1000], alt_shards=2)}
@@ -26,7 +27,7 @@ VALUES = [1, 2, 3, 4, 5, 6, 7, 8, 12, 16, 24, 36, 48, 72, 96]
 @st.composite
 def _case(draw, size=1):
     pitches = draw(gens.pitch_pool([(60,), (60, 61), (60, 61, 62)]))
-    notes = draw(gens.wellformed_notes(channels=(0, 1), pitches=pitches, max_notes=9 * size, max_len=50,
+    notes = draw(gens.wellformed_notes(channels="pool", pitches=pitches, max_notes=9 * size, max_len=50,
                                        max_gap=draw(st.sampled_from([30, 30, 70]))))
     if draw(st.integers(0, 11)) == 0:
         # one very long sustained note (an organ point of 10^4..10^5 ticks), far away from every allowed value
@@ -39,6 +40,7 @@ def _case(draw, size=1):
     spec.update(draw(gens.route()))
     end = max([n[3] for n in notes] + [m[1] for m in meta] + [0])
     spec["pad"] = draw(st.one_of(st.none(), st.just(end + draw(st.integers(0, 30)))))
+    gens.far_shift(draw, spec)
     if draw(st.integers(0, 7)) == 0:
         spec["double"] = draw(st.sampled_from(["self", "fresh"]))     # the material twice: one message object, two positions
     values = draw(st.one_of(st.lists(st.sampled_from(VALUES), min_size=0, max_size=5),
